@@ -377,7 +377,7 @@ def impl(case):
         for row, H in zip(vo, hs):
             row.append(bool(sg0 == SynGraph(H, c)))
             row.append(bool(cg0 == CanonicalGraph(H, c)))
-    return [[[[[out, pat], vo], _rule_vo(case)]] + _graph_sig_obs(case), _order_only_perms(case)]
+    return [[[[[[out, pat], vo], _rule_vo(case)]] + _graph_sig_obs(case), _order_only_perms(case)], _orbits_obs(case)]
 
 
 def _graph_sig_obs(case):
@@ -392,6 +392,16 @@ def _graph_sig_obs(case):
     for h in case.get("others", []):
         sigs.append(c.nauty.graph_signature(_nx(h)))
     return [labels, _pattern(sigs)]
+
+
+def _orbits_obs(case):
+    """canonical_form(return_orbits=True) / compute_orbits, per presentation, as a set of sets."""
+    c = _canoniser("nauty")
+    out = []
+    for p in _present(case):
+        res = c.nauty.canonical_form(_nx(p), return_aut=True, return_orbits=True)
+        out.append(S([S(sorted(o)) for o in res[2]]))
+    return out
 
 
 def _order_only_perms(case):
@@ -479,7 +489,7 @@ def coq_case(case):
     for p in ps:
         G = _nx(p)
         items.append("(%s, %s, %s)" % (_cgraph(p), _cranks(_wl_ranks(G), p), _cranks(_morgan_ranks(G), p)))
-    return "run_case5 %s %s %s" % (clist(items), clist([_cgraph(h) for h in case.get("others", [])]),
+    return "run_case6 %s %s %s" % (clist(items), clist([_cgraph(h) for h in case.get("others", [])]),
                                    clist([_cgraph(h) for h in _rule_hs(case)]))
 
 
@@ -1005,7 +1015,7 @@ def distribution(cases, obss):
         if _n_aut_gt1_or_tied(c["g"]):
             tied += 1
         try:
-            for row in o[0][0][0][0][0]:
+            for row in o[0][0][0][0][0][0]:
                 refines += len(row[3][2])
                 leaves += len(row[3][3])
                 if len(row[3][3]) > 1:
